@@ -10,6 +10,8 @@
 (*                      by the harness to position pos of E (0 = no        *)
 (*                      alignment found); TLC re-checks E[pos].g = g       *)
 (*  T.sess[s].q     the user explicitly asked to quit in this session      *)
+(*  T.sess[s].qn    guesses written by this session when the quit flag was *)
+(*                  set (-1 = never)                                       *)
 (*  T.sess[s].tie   pre-terminal whose probability equals the position     *)
 (*                  restored into this session (0 = none): the only one    *)
 (*                  that may be replayed (C08)                             *)
@@ -48,6 +50,13 @@ Clauses == <<
   << "C12_stops_only_at_boundary_or_between_markov_guesses",
         LET b == (IF Replay(S.x) = <<>> THEN LastPos(S.x) ELSE Replay(S.x)[Len(Replay(S.x))][1]) IN
           b = NE \/ b = nextpos - 1 \/ (b \in 1..(NE - 1) /\ (T.E[b].p # T.E[b + 1].p \/ T.E[b].m)) >>,
+  << "C12_quit_takes_effect",
+        \* S.qn = number of guesses this session had written when the quit flag was set (-1: never set).
+        \* From then on at most the current pre-terminal is finished (or one more Markov guess is written).
+        (S.qn >= 0 /\ S.qn < Len(S.x)) =>
+           LET p == S.x[S.qn + 1][1]
+               bound == IF p \in 1..NE THEN (IF T.E[p].m THEN p ELSE CHOOSE k \in PosOf(T.E[p].p) : \A j \in PosOf(T.E[p].p) : j <= k) ELSE 0
+           IN \A i \in (S.qn + 1)..Len(S.x) : S.x[i][1] <= bound >>,
   << "C15_C08_saved_state_is_the_remainder",  si = NS => (LastPos(S.x) = NE \/ Replay(S.x) # <<>>) >> >>
 
 Failing == SelectSeq([k \in DOMAIN Clauses |-> IF Clauses[k][2] = TRUE THEN "" ELSE Clauses[k][1]], LAMBDA z : z # "")
